@@ -5,6 +5,7 @@ CONSTANTS
   MaxCrashes = 1
   ClientOps = {"cancel", "release", "frelease"}
   RestartIfIdKnown = FALSE
+  IdStoredLate = FALSE
   StdoutFromZero = FALSE
   ReleaseSkipsRemote = FALSE
 INVARIANTS
@@ -12,6 +13,7 @@ INVARIANTS
   NeverContradictsE
   LocalOutputIsPrefix
   SubmittedOnce
+  BoundOnceShipped
   NeverStartedIsFailed
   CancelSurvivesRestart
   ReleaseRemovesBoth
